@@ -24,6 +24,8 @@ func init() {
 		rules.IngressNamespaceScoping(p, r, "C10-ns")
 		rules.QueryPathWrites(p, r, "C10-pure")
 		rules.LayerOrder(p, r)
+		rules.IngressAnalyzerEmptiness(p, r, "C10-ia-empty")
+		rules.EndpointRoles(p, r, "C10")
 		// the controller is an UNLABELED pod: what the policies allow from it is decided by the selector library, which
 		// knows that NotIn / DoesNotExist requirements match a pod without labels
 		rules.LabelMatchingByLibrary(p, r, "C10-match")
